@@ -40,6 +40,7 @@ def gen_program(seed, idx, tier):
     g.reset_kind = KINDS[idx % 4]
     if rs.below(2):
         g.targets = ["q", "r", "nd", "nr"]
+        g.partial = True
     g.on_reset = rs.below(4) == 0
     g.push = rs.below(3) == 0
     return g.program()
